@@ -8,7 +8,7 @@ import SmoothProofs.C02Basic
 
 open Lin Scalar
 
-namespace C17
+namespace C17P
 
 abbrev G1 := Vec ℝ (4 + 3 * 1)
 abbrev T1 := Vec ℝ (3 + 3 * 1)
@@ -94,6 +94,8 @@ theorem sek1_vee (A : Mat ℝ 4 4) :
   unfold SEK3.vee SE3.vee
   rw [mkT1]
   congr 1
+  ext c
+  fin_cases c <;> simp [mk3, Vec.of]
 
 theorem sek1_Ad (g : G1) : SEK3.Ad 1 g = SE3.Ad (Conv.sek1_to_se3 g) := by
   unfold SEK3.Ad SE3.Ad
@@ -115,4 +117,4 @@ theorem sek1_dr_expinv (a : T1) : SEK3.dr_expinv 1 a = SE3.dr_expinv (Conv.sek1T
   rw [ofBlocks1]
   simp [tw1, tv1, memoM_eq]
 
-end C17
+end C17P
